@@ -158,11 +158,17 @@ def replay_history(fa, hist, init_reg, check=True):
                 break
             real = stub.get()
             obs = probes()
+            after_probes = stub.get()
             trace.append((real & CTRL, obs))
             if check:
-                if (real & CTRL) != (reg & CTRL):
-                    diff = (real ^ reg) & CTRL
+                # the whole register is compared: the six sticky status flags (bits 0..5) are part of "the value it had on
+                # entry" and of "changes only the requested bits"; the arithmetic probes run between events raise flags, which
+                # the model takes over from the hardware after every probe (environment input)
+                if (real & 0xFFFF) != (reg & 0xFFFF):
+                    diff = (real ^ reg) & 0xFFFF
                     what = []
+                    if diff & 0x3F:
+                        what.append("status-flags")
                     if diff & FZ_BIT:
                         what.append("FZ")
                     if diff & DAZ_BIT:
@@ -174,11 +180,15 @@ def replay_history(fa, hist, init_reg, check=True):
                     hoisted = any(m[1] != None for m in margs) and kind in ("enter",) and margs[ev[1]][1] & CTRL != (stack[-1][0] & CTRL)
                     where = {"enter": "after-enter", "exit": "after-exit", "raise": "after-exception", "create": "after-create"}[kind]
                     viols.append((f"register-mismatch:{where}:{'hoisted-context' if (kind == 'enter' and hoisted) else 'inline'}:{'+'.join(what)}",
-                                  f"after {ev}: MXCSR control bits {real & CTRL:#06x}, reference model {reg & CTRL:#06x} (history {hist}, initial {init_reg:#06x})"))
+                                  f"after {ev}: MXCSR {real & 0xFFFF:#06x}, reference model {reg & 0xFFFF:#06x} (history {hist}, initial {init_reg:#06x})"))
                     break
                 if obs != expected_probes(real):
                     viols.append(("arithmetic-does-not-observe-register", f"after {ev}: probes {obs} but register {real:#06x}"))
                     break
+                if (after_probes & CTRL) != (real & CTRL):
+                    viols.append(("probes-changed-control-bits", f"after {ev}: {real:#06x} -> {after_probes:#06x}"))
+                    break
+            reg = (reg & ~0x3F) | (after_probes & 0x3F)
     finally:
         stub.set(DEFAULT)
     return viols, (reg, tuple(stack), tuple(margs)), trace
